@@ -266,6 +266,12 @@ def validate(ctx, traces, prefixes, label, discr=None):
     res, stats = tlc.validate_traces("FakeTrxTrace.tla", "FakeTrxTrace.cfg", traces, scratch=ctx.scratch,
                                      chunk="balance", parallel=6, timeout=3000)
     ctx.add_tv(label, stats, len(traces))
+    un = set()
+    for t in traces:
+        for e in t["ev"]:
+            un.update((e.get("proj") or {}).get("unobs", ()))
+    # state components the harness could not read from the application (not compared by the specification)
+    ctx.extra["unobservable_state_components"] = sorted(set(ctx.extra.get("unobservable_state_components", [])) | un)
     byid = {t["id"]: t for t in traces}
     foreign = {}
     for v in res:
@@ -321,10 +327,10 @@ def traffic_session(ctx, sid, prof, length=None):
     for t in range(2, n):                     # extra transceivers: tuned like the BTS / the MS, or elsewhere
         r = rng.random()
         if r < 0.55:
-            like = sim.trx[rng.choice([0, 1])]
-            if like._rx_freq is not None and like._tx_freq is not None:
-                s.cmd(t, "CMD RXTUNE %d" % (like._rx_freq // 1000))
-                s.cmd(t, "CMD TXTUNE %d" % (like._tx_freq // 1000))
+            lrx, ltx = sim.tuned(rng.choice([0, 1]))
+            if lrx is not None and ltx is not None:
+                s.cmd(t, "CMD RXTUNE %d" % (lrx // 1000))
+                s.cmd(t, "CMD TXTUNE %d" % (ltx // 1000))
         elif r < 0.85:
             s.cmd(t, "CMD RXTUNE %d" % rng.choice(FREQS))
             s.cmd(t, "CMD TXTUNE %d" % rng.choice(FREQS))
@@ -357,7 +363,7 @@ def traffic_session(ctx, sid, prof, length=None):
                 # the header has 32 bits: a frame number beyond the hyperframe that is congruent to a
                 # frame the clock is about to reach (never forwarded, never a reason to fail)
                 fn += HYPER * rng.choice([1, 2, 3, 100, 789])
-            ver = trx.data_if._hdr_ver if rng.random() < 0.9 else 1 - trx.data_if._hdr_ver
+            ver = sim.ver(t) if rng.random() < 0.9 else 1 - sim.ver(t)
             kind, bits = burst_bits(rng, gen)
             if not unique_tsc(bits):
                 continue
@@ -435,7 +441,7 @@ def flood_session(ctx, sid):
     if rng.random() < 0.5:
         rng.shuffle(order)
     for k, tn in order:
-        s.data(t, tx_datagram(sim.trx[t].data_if._hdr_ver, (src + k) % HYPER, tn, 0, bits))
+        s.data(t, tx_datagram(sim.ver(t), (src + k) % HYPER, tn, 0, bits))
     for _ in range(nfr + 3):
         s.tick()
     for u in range(len(sim.trx)):
@@ -538,7 +544,7 @@ def restart_replay_session(ctx, sid):
     for rnd in range(rng.randint(2, 4)):
         for k in range(rng.randint(1, 3)):
             if g.running:
-                s.data(0, tx_datagram(sim.trx[0].data_if._hdr_ver, g.clck_src, rng.randrange(8), 0, bytes(rng.getrandbits(1) for _ in range(148))))
+                s.data(0, tx_datagram(sim.ver(0), g.clck_src, rng.randrange(8), 0, bytes(rng.getrandbits(1) for _ in range(148))))
                 s.tick()
         setfh()                                   # live re-configuration of the hopping child
         s.cmd(0, "CMD POWEROFF")
@@ -547,6 +553,6 @@ def restart_replay_session(ctx, sid):
         s.cmd(1, "CMD POWERON")                   # clock restarts from its first frame
     for k in range(3):
         if g.running:
-            s.data(0, tx_datagram(sim.trx[0].data_if._hdr_ver, g.clck_src, rng.randrange(8), 0, bytes(148)))
+            s.data(0, tx_datagram(sim.ver(0), g.clck_src, rng.randrange(8), 0, bytes(148)))
             s.tick()
     return s.trace()
